@@ -43,3 +43,11 @@ Example C12_replay_rejects_double_free_and_foreign_unmap :
   live_from [] [EMmap 0 12 (Some 4096); EMunmap 8192 12] = None /\ live_from [] [] = Some (o_owned (os0 (fun _ => 0))).
 Proof. repeat split. Qed.
 Print Assumptions C12_replay_rejects_double_free_and_foreign_unmap.
+
+(* the library's process-wide state, as found in the current source, is what the model has: the guard, and one call counter per fake!
+   call site; no pool, table, cache or remembered address survives an injector (generated constants, tools/const_translate.py) *)
+From Inj Require SrcTieLife.
+Theorem C12_library_state_is_what_the_model_has :
+  (SrcTieLife.src_only_guard_static && SrcTieLife.src_macro_statics_are_counters)%bool = true.
+Proof. exact SrcTieLife.src_state_shape. Qed.
+Print Assumptions C12_library_state_is_what_the_model_has.
